@@ -224,11 +224,23 @@ func eval(t tuple) map[string]interface{} {
 		row["bydist"] = int(dn.Rank)
 	}
 	pms := t.Parent * 1000
-	from, to := consensus.GetNextMineWindow(h, dist, pms, pms+t.NowMs, t.SlotMs, w.dm)
+	// Very long gaps (weeks: beyond 2^31 ms): the schedule is periodic in whole rotations (Rotation, checked by TLC), so the
+	// row is logged relative to the start `base` of the rotation the instant `now` lies in - TLC's integers are 32-bit.
+	// The real functions get the true instants.
+	base := int64(0)
+	if t.NowMs >= 1<<30 {
+		loop := int64(t.N) * t.SlotMs
+		base = t.NowMs / loop * loop
+		row["now"] = t.NowMs - base
+		row["base_rotations"] = strconv.FormatInt(base/loop, 10)
+	}
+	pms += base
+	nowRel := t.NowMs - base
+	from, to := consensus.GetNextMineWindow(h, dist, pms-base, pms+nowRel, t.SlotMs, w.dm)
 	row["from"], row["to"] = from-pms, to-pms
 	m := miner.New(miner.MineConfig{SleepTime: t.BiMs, Timeout: t.SlotMs, ReservedPropagationTime: 0}, nil, w.dm, nil)
-	wait, end := m.VerifGetSleepTime(h, dist, pms, pms+t.NowMs)
-	row["wake"], row["end"] = t.NowMs+wait, end-pms
+	wait, end := m.VerifGetSleepTime(h, dist, pms-base, pms+nowRel)
+	row["wake"], row["end"] = nowRel+wait, end-pms
 	parent := &types.Header{Height: h - 1, Time: uint32(t.Parent), MinerAddress: parentMiner}
 	// the account the REAL assembler stamps into a header mined by the target deputy's node
 	deputynode.SetSelfNodeKey(nodeKey(ids[t.Tr]))
@@ -245,8 +257,10 @@ func eval(t tuple) map[string]interface{} {
 	val := consensus.NewValidator(uint64(t.SlotMs), nil, w.dm, nil, nil)
 	// sample instants: the window's edges and middle, the wake-up instant, now, and extras
 	fr, tt := from-pms, to-pms
-	samples := []int64{fr, fr + 1, (fr + tt) / 2, tt - 1, t.NowMs + wait, t.NowMs, tt, fr - 1}
-	samples = append(samples, t.Extra...)
+	samples := []int64{fr, fr + 1, (fr + tt) / 2, tt - 1, nowRel + wait, nowRel, tt, fr - 1}
+	for _, x := range t.Extra {
+		samples = append(samples, x-base)
+	}
 	var cm, ver [][]interface{}
 	seen := map[int64]bool{}
 	for _, s := range samples {
@@ -265,7 +279,7 @@ func eval(t tuple) map[string]interface{} {
 		}
 		cm = append(cm, []interface{}{s, rank})
 		// a header whose time is the whole second of instant s (PrepareHeader), signed by each deputy in turn
-		hdr := &types.Header{Height: h, Time: uint32(t.Parent + s/1000)}
+		hdr := &types.Header{Height: h, Time: uint32(t.Parent + (base+s)/1000)}
 		okTr, others := false, 0
 		for i, d := range deps {
 			hdr.MinerAddress = d
@@ -377,6 +391,10 @@ func drive(args []string) error {
 			if now < 0 {
 				now = 0
 			}
+		}
+		if i%8 == 7 { // a chain that stood still for weeks: around 2^31, 2^32, 2^33 ... milliseconds
+			marks := []int64{1 << 31, 1 << 32, 1<<32 + 1<<31, 1 << 33, 3 << 32, 5 << 32}
+			now = marks[rng.Intn(len(marks))] + rng.Int63n(4*int64(n)*slot) - 2*int64(n)*slot
 		}
 		t := tuple{N: n, Special: special, Pr: pr, Tr: rng.Intn(n), SlotMs: slot, NowMs: now, BiMs: rng.Int63n(slot),
 			Parent: 1500000000 + rng.Int63n(2e9), Extra: []int64{rng.Int63n(now + slot*int64(n) + 1), rng.Int63n(slot*int64(n) + 1)}}
